@@ -107,6 +107,16 @@ type c19Tracker struct {
 	started, exited int32
 	mu              sync.Mutex
 	blocked         map[string]int
+	sent            map[string]int  // chunks a receiver took, per producer path
+	cut             map[string]bool // a Send reported "closed": the producer was told to stop
+}
+
+// sentOf reports how many chunks of the producer at path were taken and whether it was told that
+// nobody listens any more (only meaningful once the producer has exited).
+func (t *c19Tracker) sentOf(path string) (int, bool) {
+	t.mu.Lock()
+	defer t.mu.Unlock()
+	return t.sent[path], t.cut[path]
 }
 
 func (t *c19Tracker) produce(path string, chunks []gcase.M) *schema.StreamReader[gcase.M] {
@@ -125,8 +135,20 @@ func (t *c19Tracker) produce(path string, chunks []gcase.M) *schema.StreamReader
 		}()
 		for _, c := range chunks {
 			if closed := sw.Send(c, nil); closed {
+				t.mu.Lock()
+				if t.cut == nil {
+					t.cut = map[string]bool{}
+				}
+				t.cut[path] = true
+				t.mu.Unlock()
 				return
 			}
+			t.mu.Lock()
+			if t.sent == nil {
+				t.sent = map[string]int{}
+			}
+			t.sent[path]++
+			t.mu.Unlock()
 		}
 	}()
 	return sr
@@ -278,13 +300,17 @@ func c19Trim(s string) string {
 
 func runC19(ctx *vh.Ctx) error {
 	ctx.Res.Rule = "random graphs (pregel/dag, fan-out copies, fan-in merges, single and multi branches incl. branches selecting nothing) whose streaming nodes emit through unbuffered Pipes from goroutines with blocking sends; Stream/Transform called, output read to the end / a prefix / not at all, then closed; preconditions of the property (run completes, nothing ready besides END at return, every output has a consumer) decided on the Lean model; non-trivial = >=1 goroutine producer and (fan-in | branch | cycle | >=3 nodes); distinct by canonical case"
-	ctx.Res.Rule += " || workflow family: a streaming producer (unbuffered pipe, goroutine) whose successors are data+control / data-only / control-only / branch ends, value and prefix-reading stream conditions, single and multi-way; non-trivial = a branch or >=2 successor kinds"
+	ctx.Res.Rule += " || workflow family: a streaming producer (unbuffered pipe, goroutine) whose successors are data+control / data-only / control-only / branch ends, value and prefix-reading stream conditions, single and multi-way; control-only successors (dep nodes, branch ends) take their own data from START / nothing at all / static values / START without control / the producer without control (targets without any data predecessor, skipped ends that are sent data, ends named by the branch and by a data edge); the copy-routing model (oracle) names the fate of every copy, compared: producer released, and not cut off when some reader drains its stream; non-trivial = a branch or >=2 successor kinds"
 	ctx.Res.Rule += " || merge family: fan-ins of 2..9 sources of different lengths (schema.MergeStreamReaders driven directly with pipes / converted readers / copies / arrays / merged readers; DAG and Pregel fan-ins into END, a prefix-reading node, a pass node with a prefix-reading stream branch; Workflow inputs; ToolsNode.Stream), the reader closes after the short sources have ended / early / reads to the end; the reader's trace is replayed on the merged-reader model, which names the senders released by the close; non-trivial = >=1 short (<=2 chunks) and >=1 long source and the reader closes after at least 40 chunks more than the short sources have"
+	ctx.Res.Rule += " || cross family: a streaming producer A and a branching node B side by side in a Workflow; the ends of B's branch take A's stream without control / with control / not at all and concatenate it or pass it on lazily; the order of 'A's copy reaches the end's channel' and 'the branch skips the end' is forced by structure (B depends on A: value first) or by a barrier (A waits for the branch condition: skip first) or left free; the copy-routing model names the fate of every copy; compared: producer released, not cut off while a reader drains; non-trivial = some copy is sent to an end that is skipped"
 	if ctx.Replay != nil {
 		if done, err := c19wReplay(ctx, ctx.Replay); done {
 			return err
 		}
 		if done, err := c19mReplay(ctx, ctx.Replay); done {
+			return err
+		}
+		if done, err := c19xReplay(ctx, ctx.Replay); done {
 			return err
 		}
 		var c c19Case
@@ -297,6 +323,9 @@ func runC19(ctx *vh.Ctx) error {
 		return err
 	}
 	if err := c19wRun(ctx); err != nil {
+		return err
+	}
+	if err := c19xRun(ctx); err != nil {
 		return err
 	}
 	n := ctx.N(2500, 20000)
